@@ -321,6 +321,19 @@ def run_project_case(case: dict) -> dict:
     try:
         root = d / "root"
         p = ensure_cls(case["p"])
+        if case.get("twins"):
+            # every plain covered text file gets a sibling declaring exactly the same: whatever is reported for one file
+            # (a missing licence, a bad one, no copyright) is then owed for two files under the same identifier
+            taken = {f["pathstr"] for f in p["files"]}
+            for f in list(p["files"]):
+                tw = f["path"][:-1] + ["twin-of-" + f["path"][-1]]
+                ts = "/".join(tw)
+                if f.get("ncls") != "plain" or f["type"] != "text" or f.get("unreadable") or ts in taken or f["dot"]["present"]:
+                    continue
+                g = json.loads(json.dumps(f))
+                g.update(path=tw, pathstr=ts, pchars=list(ts))
+                p["files"].append(g)
+                taken.add(ts)
         m = materialise(p, root, rnd, outside=d / "outside")
         if case.get("git"):
             # a Git work tree: everything tracked except what .gitignore says; raw extra files (e.g. broken configuration
